@@ -135,6 +135,13 @@ def make_spec(rng, gen, kind, nsend=None, fail=None, shape=None):
         spec.update(wscript=ws, fail="dd", fail_at=k, status_cb=rng.choice(["sleep", "sleep", "sleep", "yield"]), refuse=0)
     if shape == "unconnected":
         spec["no_connect"] = True
+    if shape == "unconnected-bad":
+        spec["no_connect"] = True
+        spec["sends"] = [{"msg": gen.message(rng, w_), "what": w_, "delay": rng.choice([0, 1, 150])}
+                         for w_ in rng.sample(["missing", "range", "pgn", "missing", "range"], rng.choice([1, 2, 3]))]
+        spec.update(fail=None, refuse=0)
+        spec["wscript"] = [{"w": "ok", "d": "ret"}] * 24
+        spec.pop("fail_at", None)
     spec["probe"] = {"msg": gen.message(rng, rng.choice(["fast", "fast", "single"]))}
     if shape == "close":
         # close() while sends are pending/in flight. A connect() racing with close() is C14's subject (F-closerace),
@@ -188,9 +195,12 @@ def oracle(spec, res):
     failed = {e[1] for e in body if e[0] in ("wraise",) or (e[0] == "d" and e[2] == "raise") or
               (e[0] == "dres" and e[2] == "raise")}
     link_failed = bool(failed)
+    pre_open_ok = set()
     if spec.get("no_connect"):
-        # a send() on a client that has no writer yet fails as a connection fault (and triggers the connect)
+        # an ENCODABLE message sent on a client that has no writer yet fails as a connection fault (and triggers the connect);
+        # an unencodable one is dropped like on a connected client
         first_open = next((k for k, e in enumerate(body) if e[0] == "opened"), len(body))
+        pre_open_ok = {e[1] for k, e in enumerate(body) if e[0] == "enc" and k < first_open and e[2] == "ok"}
         failed |= {e[1] for k, e in enumerate(body) if e[0] == "enc" and k < first_open}
     for i in order:
         got = [p for _, j, p in log if j == i]
@@ -207,7 +217,16 @@ def oracle(spec, res):
                                       f"the encoder produces {[p.hex() for p in want][:8]}")
     f = res["final"]
     st = [e[1] for e in body if e[0] == "status"]
-    any_fault = bool(failed) or spec.get("no_connect")
+    any_fault = bool(failed - {i for i in order if exp[i] is None}) or bool(pre_open_ok) or link_failed
+    if spec.get("no_connect") and not pre_open_ok and not link_failed and spec.get("close_after") is None:
+        # nothing but unencodable messages on a client that was never connected: nothing is written and nothing changes -
+        # in particular no connection is opened on its behalf
+        if all(x is None for x in _fresh_packets(kind, list(spec["sends"]))):      # judged by a fresh encoder, not by what the client did
+            if st or f["nopen"] != 0 or f["nconnect"] != 0:
+                return ("bad-message-disturbs",
+                        f"client never connected, only unencodable messages sent ({[x.get('what', '?') for x in spec['sends']]}): "
+                        f"status trace {st}, {f['nopen']} connection(s) opened, {f['nconnect']} connect() call(s), state {f['state']}")
+            return None
     if not all(f["sends_done"]):
         return "send-stuck", f"send() calls did not return: {f['sends_done']}"
     if spec.get("close_after") is not None:
@@ -221,6 +240,11 @@ def oracle(spec, res):
             return ("bad-message-disturbs",
                     f"no write failed, yet status trace {st}, state {f['state']}, {f['nopen']} connection(s), "
                     f"{f['nconnect']} connect() call(s); unencodable messages in the session: {bad}")
+    if f.get("undrained_faults") and f["state"] == "CONNECTED":
+        return ("fault-unnoticed",
+                f"a packet was written to a link that had failed (the transport reports it through drain(), as asyncio's streams do), "
+                f"send() returned without draining after that write ({f['undrained_faults']}); state CONNECTED, status trace {st}: "
+                "the failing write led to no DISCONNECTED and no reconnection")
     # 4. a failing write leads to DISCONNECTED and a reconnection — for EVERY writer on which a write or drain failed
     cur_w, bad_w = {}, set()
     for e in body:
@@ -330,6 +354,7 @@ def _specs(ctx, gen, per):
         for fail in ("w", "d", "dd"):
             specs.append(make_spec(rng, gen, kind, fail=fail))
         specs.append(make_spec(rng, gen, kind, shape="unconnected", fail=False))
+        specs.append(make_spec(rng, gen, kind, shape="unconnected-bad", fail=False))
         specs.append(make_spec(rng, gen, kind, shape="window", fail=False))
         specs.append(make_spec(rng, gen, kind, shape="window", fail=False))
         specs.append(make_spec(rng, gen, kind, shape="twofail", fail=False))
